@@ -8,6 +8,7 @@ import warnings
 from .. import core, tree
 
 MOD = "mc.props.c12"
+MAXK = [None]   # bound on the size of stop / filtered-out subsets (None: all subsets)
 NAMES = ["n0", 'q"x', "b\\", "a b", "é", '6"-6\\"', "n0", '\\"', "x;y", "", "100%", "%s", "%%d"]
 KF = "KF-C12-edge-to-stopped-child"
 
@@ -236,10 +237,10 @@ def check_shape(t, shape, known, rot=0, only=None, custom=True, histories=True, 
         t.c["states"] += 1
         sub = m.pre(start)
         h = m.height(start)
-        for stopset in core.powerset(sub):
+        for stopset in core.powerset(sub, MAXK[0]):
             sids = frozenset(id(nodes[v]) for v in stopset)
             stop = (lambda n, s=sids: id(n) in s) if stopset else None
-            for hidden in core.powerset(sub):
+            for hidden in core.powerset(sub, MAXK[0]):
                 hids = frozenset(id(nodes[v]) for v in hidden)
                 filt = (lambda n, s=hids: id(n) not in s) if hidden else None
                 for ml in [None] + list(range(0, h + 2)):
@@ -402,8 +403,9 @@ def check_histories(t, m, names, known, ctx):
         judge_export(t, m, names, which, lines, 0, (), (m.n - 1,), 2, dict(ctx, history="reconfigured"), known)
 
 
-def job(items, custom, histories):
+def job(items, custom, histories, maxk=None):
     t = core.Tally()
+    MAXK[0] = maxk
     known = core.load_known_findings("C12")
     for item in items:
         shape, rot = item[:2]
@@ -435,7 +437,10 @@ def run(tier):
     items += [(s, 2, kind) for kind in ("eqhash", "falsy", "weird") for s in tree.shapes_upto(nmax - 1)]
     items += [(s, 9) for s in tree.shapes_upto(nmax - 1)]   # non-string names
     t = core.Tally()
-    core.run_pool([(MOD, "job", {"items": [it], "custom": True, "histories": True}) for it in items[::-1]], 0, into=t)
+    jobs = [(MOD, "job", {"items": [it], "custom": True, "histories": True}) for it in items[::-1]]
+    if tier == "thorough":
+        jobs += [(MOD, "job", {"items": [(s, k % 9)], "custom": False, "histories": False, "maxk": 2}) for k, s in enumerate(tree.plane_trees(nmax + 1))]
+    core.run_pool(jobs, 0, into=t)
     core.run_pool([(MOD, "job", {"items": c, "custom": False, "histories": False})
                    for c in core.chunks([(s, 1) for s in tree.shapes_upto(3)], core.NPROC)], 1, into=t)
     known = core.load_known_findings("C12")
